@@ -1,4 +1,95 @@
-import OVM.IO.Ascii.Parse
+import OVM.IO.Ascii.PropLemmas
+/-
+  C07, OVM-ASCII half.  Subject: `parse` (lean/OVM/IO/Ascii/Parse.lean), the model of
+  `FileManager::readStream` as of d1ec4f8 (all of F4 F5 F6 A1 A2 A3 A4 applied); the model is tied to
+  the code by the differential run of tools/props/io_ascii.py (same bytes to both, result class and
+  mesh compared).
+
+  For every byte string and every reader configuration (mesh type, topology check, allocation limit,
+  and any hex ordering step that only hands on halffaces it was given):
+    * `parse_fault_free`   no kernel entry point is ever called with a handle that does not exist
+                           (the `fault` flag of the model: the out-of-bounds accesses of F4 / F6)
+    * `parse_terminates`   the loop `while(!_istream.eof())` consumes input on every pass: the fuel
+                           `|input|+2` is never exhausted; every other loop of the model is
+                           structural recursion on the input or on a declared count
+    * `parse_ok_valid`     success ⇒ every stored handle designates an existing entity and every
+                           property has one element per entity
+-/
 namespace OVM.Ascii
-theorem placeholder_c07 : True := trivial
+
+/-- **C07 (a)**: the reader never uses a handle that does not designate an existing entity. -/
+theorem parse_fault_free (cfg : Cfg) (hx : HexOK cfg) (input : Str) : (parse cfg input).fault = false :=
+  (readAll_facts cfg hx input).1
+
+/-- **C07 (b)**: termination — the only fuel-bounded loop never runs out of fuel. -/
+theorem parse_terminates (cfg : Cfg) (hx : HexOK cfg) (input : Str) : (parse cfg input).res ≠ .error .fuel := by
+  have h := (readAll_facts cfg hx input).2.1
+  unfold parse
+  simp only
+  split
+  · rename_i e he
+    intro hc
+    apply h
+    rw [he]
+    cases hc
+    rfl
+  · simp
+
+/-- **C07 (c)**: success ⇒ valid mesh. -/
+theorem parse_ok_valid (cfg : Cfg) (hx : HexOK cfg) (input : Str) (F : AFile)
+    (h : (parse cfg input).res = .ok F) : ValidFile F := by
+  have hv := (readAll_facts cfg hx input).2.2
+  unfold parse at h
+  simp only at h
+  split at h
+  · simp at h
+  · rename_i he
+    simp only [Except.ok.injEq] at h
+    rw [← h]
+    exact hv he
+
+/-! ### non-vacuity, and the replays of the confirmed defects evaluated on the model of the repaired code -/
+
+/-- a concrete configuration satisfying the hypothesis -/
+def cfgOf (k : Kind) (chk : Bool) : Cfg := ⟨k, chk, 1000, fun _ hfs => some hfs⟩
+
+theorem cfgOf_hexOK (k : Kind) (chk : Bool) : HexOK (cfgOf k chk) := by
+  intro faces hfs l h
+  simp [cfgOf] at h
+  rw [← h]; exact fun x hx => hx
+
+set_option maxRecDepth 100000
+set_option exponentiation.threshold 2048
+
+def errOf (o : Outcome) : Option Err := match o.res with | .error e => some e | .ok _ => none
+def okOf (o : Outcome) : Option AFile := match o.res with | .ok F => some F | .error _ => none
+
+/-- one tetrahedron with a vertex property reads successfully (so `parse_ok_valid` is not vacuous) -/
+def tetText : Str := kw "OVM ASCII\nVertices\n4\n0 0 0\n1 0 0\n0 1 0\n0 0 1\nEdges\n6\n0 1\n1 2\n2 0\n0 3\n1 3\n2 3\nFaces\n4\n3 0 2 4\n3 0 8 7\n3 2 10 9\n3 4 6 11\nPolyhedra\n1\n4 1 2 4 6\nVProp int \"w\"\n5\n6\n7\n8\n"
+
+example : okOf (parse (cfgOf .tet true) tetText) =
+    some { verts := [(kw "0", kw "0", kw "0"), (kw "1", kw "0", kw "0"), (kw "0", kw "1", kw "0"), (kw "0", kw "0", kw "1")],
+           edges := [(0, 1), (1, 2), (2, 0), (0, 3), (1, 3), (2, 3)],
+           faces := [[0, 2, 4], [0, 8, 7], [2, 10, 9], [4, 6, 11]], cells := [[1, 2, 4, 6]],
+           props := [⟨.v, .sc .i32, kw "w", [.sc (.int 5), .sc (.int 6), .sc (.int 7), .sc (.int 8)]⟩] } := by decide
+
+/-- F5 (`VProp int "x"` + `abc`): the repaired reader reports failure instead of spinning -/
+def f5Text : Str := kw "OVM ASCII\nVertices\n1\n0 0 0\nEdges\n0\nFaces\n0\nPolyhedra\n0\nVProp int \"x\"\nabc\n"
+example : errOf (parse (cfgOf .poly true) f5Text) = some .propData := by decide
+
+/-- F4: quads read into a tet mesh: `add_face` rejects, the reader stops (before: out-of-bounds in `add_cell`) -/
+def f4Text : Str := kw "OVM ASCII\nVertices\n4\n0 0 0\n1 0 0\n0 1 0\n0 0 1\nEdges\n4\n0 1\n1 2\n2 3\n3 0\nFaces\n2\n4 0 2 4 6\n4 0 2 4 6\nPolyhedra\n1\n4 0 1 2 3\n"
+example : errOf (parse (cfgOf .tet false) f4Text) = some (.addFace 0) := by decide
+
+/-- F6: a face line of valence 0 -/
+def f6Text : Str := kw "OVM ASCII\nVertices\n1\n0 0 0\nEdges\n0\nFaces\n1\n0\nPolyhedra\n0\n"
+example : errOf (parse (cfgOf .poly false) f6Text) = some (.zeroValence 0) := by decide
+
+/- a halfedge index equal to `2*n_edges` is refused, the largest legal one is accepted -/
+example : errOf (parse (cfgOf .poly false) (kw "OVM ASCII\nVertices\n2\n0 0 0\n1 1 1\nEdges\n1\n0 1\nFaces\n1\n2 0 2\nPolyhedra\n0\n")) = some (.badHalfedge 0)
+    ∧ errOf (parse (cfgOf .poly false) (kw "OVM ASCII\nVertices\n2\n0 0 0\n1 1 1\nEdges\n1\n0 1\nFaces\n1\n2 0 1\nPolyhedra\n0\n")) = none := by decide
+
+/- a declared count above the allocation limit is the exception outcome -/
+example : errOf (parse (cfgOf .poly false) (kw "OVM ASCII\nVertices\n18446744073709551615\n")) = some (.alloc 18446744073709551615) := by decide
+
 end OVM.Ascii
